@@ -386,11 +386,11 @@ func main() {
 		r.Finish(0)
 	}
 
-	nSeq, nOps := r.Pick(32, 600), 300
+	nSeq, nOps := r.Pick(32, 400), 300
 	if v := os.Getenv("VERIF_C31_NSEQ"); v != "" { // development aid only
 		fmt.Sscan(v, &nSeq)
 	}
-	workers := 4
+	workers := r.Pick(4, 8)
 	jobs := make(chan int, 64)
 	var wg sync.WaitGroup
 	var mu sync.Mutex
